@@ -149,6 +149,16 @@ func runECDSA(c ECDSACase) ev.Outcome {
 	if want && X.X.Cmp(cv.R) >= 0 {
 		classes = append(classes, "ecdsa-x(R)>=n")
 	}
+	if s.Sign() > 0 && s.Cmp(cv.R) < 0 {
+		si := new(big.Int).ModInverse(s, cv.R)
+		a := cv.mul(cv.G, new(big.Int).Mod(new(big.Int).Mul(m, si), cv.R))
+		b := cv.mul(q, new(big.Int).Mod(new(big.Int).Mul(r, si), cv.R))
+		if !a.isInf() && a.eq(b) {
+			classes = append(classes, "ecdsa-partial-products:equal")
+		} else if !a.isInf() && a.X.Cmp(b.X) == 0 {
+			classes = append(classes, "ecdsa-partial-products:opposite")
+		}
+	}
 	ci, as := build(&c)
 	err, pan := engineSolved(ci, as, ecc.BN254.ScalarField())
 	if pan != "" {
@@ -164,7 +174,7 @@ func runECDSA(c ECDSACase) ev.Outcome {
 	return ev.Outcome{NonTrivial: !want || c.Mut != "valid", Classes: classes}
 }
 
-var ecdsaMuts = []string{"valid", "valid", "high-s", "msg+1", "msg=0", "r+1", "r-flip-bit0", "r-flip-bit0", "r-flip-bit", "r-flip-bit", "s-flip-bit", "m-flip-bit", "s+1", "r=0", "s=0", "r=n", "s=n", "swap-rs", "Q-other", "Q-neg", "Q=G", "Q=inf", "x(R)>=n", "r=x(R)-not-reduced", "R=inf"}
+var ecdsaMuts = []string{"valid", "valid", "high-s", "msg+1", "msg=0", "r+1", "r-flip-bit0", "r-flip-bit0", "r-flip-bit", "r-flip-bit", "s-flip-bit", "m-flip-bit", "s+1", "r=0", "s=0", "r=n", "s=n", "swap-rs", "Q-other", "Q-neg", "Q=G", "Q=inf", "x(R)>=n", "r=x(R)-not-reduced", "R=inf", "u1G=u2Q", "u1G=u2Q"}
 
 func genECDSA(names []string) *rapid.Generator[ECDSACase] {
 	return rapid.Custom(func(t *rapid.T) ECDSACase {
@@ -224,6 +234,12 @@ func genECDSA(names []string) *rapid.Generator[ECDSACase] {
 			Q = cv.G
 		case "Q=inf":
 			Q = inf()
+		case "u1G=u2Q":
+			// m = r*d: the partial products [m/s]G and [r/s]Q coincide, R = [u1]G + [u2]Q is a doubling; valid natively
+			m = new(big.Int).Mul(r, d)
+			m.Mod(m, n)
+			s = new(big.Int).Mul(r, d)
+			s.Add(s, m).Mul(s, new(big.Int).ModInverse(k, n)).Mod(s, n)
 		case "R=inf":
 			// u1*G + u2*Q = infinity: Q = -(m/r) G ; any s
 			if m.Sign() == 0 {
